@@ -178,6 +178,16 @@ CHECKS = {
               'names are unique and collide with nothing, that conflicts raise ValueError, and that the derivation trees of the result up to depth '
               '4/6 are in bijection with the independently enumerated pairs of derivation trees of the inputs.'),
         design_ref='DESIGN.md §4 C17'),
+    'C18': dict(
+        technique='snapshot + Tensor._version monitor around every step of random query sequences on the same objects; repeated-query reproducibility monitor; clone-aliasing probe (runtime monitoring)',
+        text=('Runtime monitoring: on one generated grammar (dense, patterned, stride-0 and non-contiguous weights; with and without requires_grad) a '
+              'random sequence of 12 queries is executed on the same objects - sum_product under varying method/semiring, sum_products, backward, '
+              'viterbi, factorize_rule/hrg/fgg, conjoin_hrgs, fgg_to_json/hrg_to_json, copy. Around every step a deep snapshot taken through the '
+              'public accessors (structure, label tables, domains; for every weight tensor bytes, shape, strides, offset, dtype, default, '
+              'requires_grad, axis objects) and the storage version counters are compared, so both .data writes and write-then-restore are seen; '
+              'each repeated query must reproduce its first result bitwise (tensors) / isomorphically (grammars) whatever ran in between; '
+              'in-place operations on MultiTensor clones must leave the source untouched.'),
+        design_ref='DESIGN.md §4 C18'),
 }
 
 NOT_BUILT = {}
